@@ -11,33 +11,37 @@ Definition is_comment_chunk (c : chunk) : bool := match c_ty c with Some Comment
 Definition chunk_comments (cs : list chunk) : list text := map c_str (filter is_comment_chunk cs).
 Definition st_comments (st : fstate) : list text := chunk_comments (rev (f_chunks st)).
 
-(* a comment chunk carries the comment's text, possibly behind the pending space of spc_if_next *)
-Definition spc_eq (chunk_text comment : text) : Prop := chunk_text = comment \/ chunk_text = SP :: comment.
+(* the non-whitespace characters of the comment chunks, in order (a pending space of spc_if_next in front of a comment
+   chunk does not count) *)
+Definition cnows (st : fstate) : text := nows (concat (st_comments st)).
+Definition tnows (cms : list text) : text := nows (concat cms).
 
-(* `f` appends comment chunks for exactly the comments `cms`, in order, and touches no earlier comment chunk *)
+(* `f` appends comment chunks carrying exactly the comments `cms`, in order, and touches no earlier comment chunk *)
 Definition emits (f : fstate -> fstate) (cms : list text) : Prop :=
-  forall st, exists new, st_comments (f st) = st_comments st ++ new /\ Forall2 spc_eq new cms.
+  forall st, cnows (f st) = cnows st ++ tnows cms.
 
 Lemma chunk_comments_app : forall a b, chunk_comments (a ++ b) = chunk_comments a ++ chunk_comments b.
 Proof. intros; unfold chunk_comments; rewrite filter_app, map_app; reflexivity. Qed.
 
+Lemma tnows_app : forall a b, tnows (a ++ b) = tnows a ++ tnows b.
+Proof. intros; unfold tnows; rewrite concat_app, nows_app; reflexivity. Qed.
+
 Lemma emits_id : emits (fun st => st) [].
-Proof. intros st; exists []; rewrite app_nil_r; auto. Qed.
+Proof. intros st; unfold tnows; simpl; rewrite app_nil_r; reflexivity. Qed.
 
 Lemma emits_comp : forall f g a b c, emits g a -> emits f b -> a ++ b = c -> emits (fun st => f (g st)) c.
-Proof.
-  intros f g a b c Hg Hf <- st.
-  destruct (Hg st) as [n1 [E1 F1]]. destruct (Hf (g st)) as [n2 [E2 F2]].
-  exists (n1 ++ n2). rewrite E2, E1, app_assoc. split; [reflexivity | apply Forall2_app; assumption].
-Qed.
+Proof. intros f g a b c Hg Hf <- st. rewrite Hf, Hg, tnows_app, app_assoc. reflexivity. Qed.
 
 Lemma emits_ext : forall f g c, (forall st, f st = g st) -> emits g c -> emits f c.
 Proof. intros f g c H Hg st. rewrite H. apply Hg. Qed.
 
+Lemma emits_eq : forall f a b, tnows a = tnows b -> emits f a -> emits f b.
+Proof. intros f a b H Hf st. rewrite Hf, H. reflexivity. Qed.
+
 (* state changes that do not touch the comment chunks *)
 Definition same_comments (f : fstate -> fstate) : Prop := forall st, st_comments (f st) = st_comments st.
 Lemma same_emits : forall f, same_comments f -> emits f [].
-Proof. intros f H st; exists []; rewrite H, app_nil_r; auto. Qed.
+Proof. intros f H st; unfold cnows; rewrite H; unfold tnows; simpl; rewrite app_nil_r; reflexivity. Qed.
 
 Lemma push_type_comments : forall ty s st,
   st_comments (push_type ty s st) =
@@ -60,17 +64,24 @@ Proof. apply same_emits; intros st; reflexivity. Qed.
 Lemma emits_clear : emits clear_spc_if_next [].
 Proof. apply same_emits; intros st; reflexivity. Qed.
 
+Lemma emits_push_comment : forall s, emits (push_type (Some Comment) s) [s].
+Proof.
+  intros s st. unfold cnows. rewrite push_type_comments. unfold tnows. destruct s as [|c r].
+  - rewrite app_nil_r; simpl; rewrite app_nil_r; reflexivity.
+  - rewrite concat_app, nows_app. f_equal. simpl. rewrite !app_nil_r.
+    destruct (f_spc st); [|reflexivity]. change (SP :: c :: r) with ([SP] ++ c :: r). rewrite nows_app. reflexivity.
+Qed.
+
+Lemma tnows_trivium_empty : tnows [[]] = tnows [].
+Proof. reflexivity. Qed.
+
 Lemma emits_trivium : forall t, emits (fmt_trivium t) (trivium_comments t).
 Proof.
-  intros t st. destruct t as [s| |s|s]; simpl.
-  - exists []; rewrite app_nil_r; auto.
-  - exists []. split; [|constructor]. unfold push. rewrite push_type_comments. reflexivity.
-  - rewrite push_type_comments. destruct s as [|c r].
-    + exists []; auto.
-    + eexists; split; [reflexivity|]. constructor; [|constructor]. destruct (f_spc st); [right|left]; reflexivity.
-  - rewrite push_type_comments. destruct s as [|c r].
-    + exists []; auto.
-    + eexists; split; [reflexivity|]. constructor; [|constructor]. destruct (f_spc st); [right|left]; reflexivity.
+  intros t. destruct t as [s| |s|s]; cbn [fmt_trivium trivium_comments].
+  - apply emits_id.
+  - apply emits_push.
+  - destruct s; [apply (emits_eq _ [[]]); [reflexivity|] |]; apply emits_push_comment.
+  - destruct s; [apply (emits_eq _ [[]]); [reflexivity|] |]; apply emits_push_comment.
 Qed.
 
 Lemma emits_fold : forall {A} (f : A -> fstate -> fstate) (g : A -> list text) (l : list A),
@@ -119,13 +130,15 @@ Ltac emits_step :=
 Lemma emits_istring : forall s, emits (fmt_istring s) (istring_comments s).
 Proof.
   intros s. unfold fmt_istring, istring_comments.
-  eapply emits_comp; [ eapply emits_comp; [apply emits_loc | | reflexivity] | apply emits_push | apply app_nil_r ].
-  eapply emits_ext with (g := fun st => fold_left (fun a i => fmt_istring_item i a) (is_items s) st); [reflexivity|].
   assert (H : flat_map (fun _ : istring_item => @nil text) (is_items s) = []) by (induction (is_items s); auto).
+  eapply emits_comp with (a := lt_comments (is_lquote s) ++ []) (b := []);
+    [ eapply emits_comp with (a := lt_comments (is_lquote s)) (b := []); [apply emits_loc | | reflexivity]
+    | apply emits_push | rewrite !app_nil_r; reflexivity ].
   rewrite <- H. apply (emits_fold fmt_istring_item (fun _ => [])).
   intros i _. destruct i as [l|l]; simpl.
   - apply emits_push.
-  - repeat emits_step; try reflexivity.
+  - eapply emits_ext with (g := fun st => push [RBRACE] (push (l_data l) (push [LBRACE] st))); [reflexivity|].
+    repeat emits_step; reflexivity.
 Qed.
 
 (* ---------------------------------------------------------------- expressions *)
@@ -172,4 +185,93 @@ Proof.
     + repeat emits_step; reflexivity.
     + repeat emits_step; reflexivity.
     + apply emits_istring.
+Qed.
+
+Lemma emits_lexpr : forall e, emits (fmt_lexpr e) (lexpr_comments e).
+Proof.
+  intros e. unfold fmt_lexpr, lexpr_comments.
+  eapply emits_comp; [apply emits_otrivia | apply emits_expression | reflexivity].
+Qed.
+
+Lemma emits_arg_exprs : forall args, emits (fmt_arg_exprs args) (arg_exprs_comments args).
+Proof.
+  intros args. unfold fmt_arg_exprs, arg_exprs_comments.
+  eapply emits_comp; [ | apply emits_clear | apply app_nil_r ].
+  apply (emits_fold (fun (ec : located expr * option ltext) a => spc_if_next (fmt_opt fmt_loc (snd ec) (fmt_lexpr (fst ec) a)))
+                    (fun ec => lexpr_comments (fst ec) ++ opt_comments lt_comments (snd ec))).
+  intros ec _.
+  eapply emits_comp; [ eapply emits_comp; [apply emits_lexpr | apply emits_opt_loc | reflexivity] | apply emits_spc | apply app_nil_r ].
+Qed.
+
+Lemma emits_arg_ids : forall args, emits (fmt_arg_ids args) (arg_ids_comments args).
+Proof.
+  intros args. unfold fmt_arg_ids, arg_ids_comments.
+  eapply emits_comp; [ | apply emits_clear | apply app_nil_r ].
+  apply (emits_fold (fun (ic : ltext * option ltext) a => spc_if_next (fmt_opt fmt_loc (snd ic) (fmt_loc (fst ic) a)))
+                    (fun ic => lt_comments (fst ic) ++ opt_comments lt_comments (snd ic))).
+  intros ic _.
+  eapply emits_comp; [ eapply emits_comp; [apply emits_loc | apply emits_opt_loc | reflexivity] | apply emits_spc | apply app_nil_r ].
+Qed.
+
+Lemma emits_import_as : forall a, emits (fmt_import_as a) (import_as_comments a).
+Proof.
+  intros a. unfold fmt_import_as, import_as_comments.
+  eapply emits_comp; [ eapply emits_comp; [apply emits_loc | apply emits_push | apply app_nil_r] | apply emits_loc | reflexivity ].
+Qed.
+
+Lemma emits_opt_import_as : forall x, emits (fmt_opt fmt_import_as x) (opt_comments import_as_comments x).
+Proof. intros; apply emits_opt; intros; apply emits_import_as. Qed.
+
+Lemma emits_if : forall (b : bool) f c, emits f c -> emits (fun st => if b then f st else st) (if b then c else []).
+Proof. intros [|] f c H; [exact H | apply emits_id]. Qed.
+
+Lemma emits_arg_specific : forall args,
+  emits (fmt_arg_specific args) (import_args_comments emits_import_arg_trivia (Specific args)).
+Proof.
+  intros args. unfold fmt_arg_specific, import_args_comments.
+  eapply emits_comp; [ | apply emits_clear | apply app_nil_r ].
+  apply (emits_fold (fun (pc : located specific_import_arg * option ltext) a =>
+      let p := l_data (fst pc) in
+      let a := if emits_import_arg_trivia then fmt_otrivia (l_trivia (fst pc)) a else a in
+      spc_if_next (fmt_opt fmt_loc (snd pc) (fmt_opt fmt_import_as (sa_as p) (spc_if_next (fmt_loc (sa_path p) a)))))
+    (fun pc => (if emits_import_arg_trivia then otrivia_comments (l_trivia (fst pc)) else []) ++
+               lt_comments (sa_path (l_data (fst pc))) ++ opt_comments import_as_comments (sa_as (l_data (fst pc))) ++
+               opt_comments lt_comments (snd pc))).
+  intros pc _. cbv zeta.
+  eapply emits_comp; [ eapply emits_comp; [ eapply emits_comp; [ eapply emits_comp; [ eapply emits_comp; [ | apply emits_loc | reflexivity ]
+                                                                                   | apply emits_spc | reflexivity ]
+                                                               | apply emits_opt_import_as | reflexivity ]
+                                          | apply emits_opt_loc | reflexivity ]
+                     | apply emits_spc | ].
+  - apply (emits_if emits_import_arg_trivia (fmt_otrivia (l_trivia (fst pc))) _ (emits_otrivia _)).
+  - rewrite !app_nil_r, <- !app_assoc. reflexivity.
+Qed.
+
+Ltac emits_eqs := cbn [opt_comments fst snd]; rewrite ?app_nil_r, <- ?app_assoc; try reflexivity.
+
+Lemma emits_suffix : forall o sfx,
+  emits (fmt_suffix o sfx) (opt_comments (fun cr : ltext * ltext => lt_comments (fst cr) ++ lt_comments (snd cr)) sfx).
+Proof.
+  intros o [[comma register]|]; cbn [opt_comments fst snd]; [|apply emits_id].
+  eapply emits_ext with (g := fun st => clear_spc_if_next (fmt_loc (mkLoc (l_trivia register) (casing_format (o_register_casing o) (l_data register)))
+                                                         (spc_if_next (fmt_loc comma st)))); [reflexivity|].
+  repeat emits_step; unfold lt_comments; cbn [l_trivia]; emits_eqs.
+Qed.
+
+Lemma emits_operand : forall o op, emits (fmt_operand o op) (operand_comments op).
+Proof.
+  intros o op. unfold fmt_operand, operand_comments.
+  destruct (op_mode op).
+  - eapply emits_comp; [ eapply emits_comp; [apply emits_opt_loc | apply emits_lexpr | reflexivity] | apply emits_suffix | ].
+    rewrite <- !app_assoc; reflexivity.
+  - eapply emits_comp; [ eapply emits_comp; [apply emits_opt_loc | apply emits_lexpr | reflexivity] | apply emits_suffix | ].
+    rewrite <- !app_assoc; reflexivity.
+  - eapply emits_comp; [ eapply emits_comp; [apply emits_opt_loc | apply emits_lexpr | reflexivity] | apply emits_suffix | ].
+    rewrite <- !app_assoc; reflexivity.
+  - eapply emits_comp; [ eapply emits_comp; [ eapply emits_comp; [apply emits_opt_loc | apply emits_lexpr | reflexivity]
+                                            | apply emits_suffix | reflexivity ] | apply emits_opt_loc | ].
+    rewrite <- !app_assoc; reflexivity.
+  - eapply emits_comp; [ eapply emits_comp; [ eapply emits_comp; [apply emits_opt_loc | apply emits_lexpr | reflexivity]
+                                            | apply emits_opt_loc | reflexivity ] | apply emits_suffix | ].
+    rewrite <- !app_assoc; reflexivity.
 Qed.
